@@ -11,6 +11,6 @@ INIT Init
 NEXT Next
 VIEW ViewNoOut
 CONSTRAINT Depth6
-INVARIANTS DirtyLoaded
-PROPERTIES FailStutters UntouchedUnwritten HeldStable
+INVARIANTS DirtyLoaded EncHeld
+PROPERTIES FailStutters UntouchedUnwritten HeldStable CommitAllOrNothing
 CHECK_DEADLOCK FALSE
